@@ -99,4 +99,115 @@ theorem eq_of_xor_eq_zero (a v : Nat) (h : a ^^^ v = 0) : a = v := by
 theorem u8sub_small (a b : Nat) (h : b ≤ a) (ha : a < 256) : u8sub a b = a - b := by
   rw [u8sub]; omega
 
+/-! ### decoder / encoder value step -/
+
+theorem decompressValue_zero (d : Dec) (r : Bits) : decompressValue d (false :: r) = some (d, r) := by
+  simp only [decompressValue]
+
+theorem decompressValue_reuse (d : Dec) (r4 r5 : Bits) (vb : Nat)
+    (h : readBits (u8sub (u8sub 64 d.lead) d.trail) r4 = some (vb, r5)) :
+    decompressValue d (true :: false :: r4) =
+      some ({ d with value := d.value ^^^ (if d.trail ≥ 64 then 0 else ((vb % P64) <<< d.trail) % P64) }, r5) := by
+  simp only [decompressValue, Bool.false_eq_true, if_false, h]
+
+theorem decompressValue_new (d : Dec) (r2 r3 r5 : Bits) (lz sig0 vb : Nat)
+    (h5 : readBits 5 r2 = some (lz, r3))
+    (h6 : readBits 6 r3 = some (sig0, r4))
+    (h : readBits (u8sub (u8sub 64 lz) (u8sub (u8sub 64 (if sig0 = 0 then 64 else sig0)) lz)) r4 = some (vb, r5)) :
+    decompressValue d (true :: true :: r2) =
+      some ({ d with lead := lz, trail := u8sub (u8sub 64 (if sig0 = 0 then 64 else sig0)) lz,
+                     value := d.value ^^^
+                       (if u8sub (u8sub 64 (if sig0 = 0 then 64 else sig0)) lz ≥ 64 then 0
+                        else ((vb % P64) <<< u8sub (u8sub 64 (if sig0 = 0 then 64 else sig0)) lz) % P64) }, r5) := by
+  simp only [decompressValue, if_true, h5, h6, h]
+
+theorem compressValue_zero (c : Enc) (v : Nat) (h : c.value ^^^ v = 0) :
+    compressValue c v = ({ c with value := v }, [false]) := by
+  simp only [compressValue, h, if_true]
+
+theorem compressValue_reuse (c : Enc) (v : Nat) (h : c.value ^^^ v ≠ 0)
+    (hw : c.lead ≤ clz (c.value ^^^ v) ∧ c.trail ≤ trailingZeros (c.value ^^^ v)) :
+    compressValue c v = ({ c with value := v },
+      true :: false :: writeBits ((c.value ^^^ v) >>> c.trail) (64 - c.lead - c.trail)) := by
+  simp only [clz] at hw
+  simp only [compressValue, h, if_false, hw, and_self, if_true]
+
+theorem compressValue_new (c : Enc) (v : Nat) (h : c.value ^^^ v ≠ 0)
+    (hw : ¬ (c.lead ≤ clz (c.value ^^^ v) ∧ c.trail ≤ trailingZeros (c.value ^^^ v))) :
+    compressValue c v = ({ c with value := v, lead := clz (c.value ^^^ v), trail := trailingZeros (c.value ^^^ v) },
+      true :: true :: (writeBits (clz (c.value ^^^ v)) 5 ++
+        writeBits (64 - clz (c.value ^^^ v) - trailingZeros (c.value ^^^ v)) 6 ++
+        writeBits ((c.value ^^^ v) >>> trailingZeros (c.value ^^^ v))
+          (64 - clz (c.value ^^^ v) - trailingZeros (c.value ^^^ v)))) := by
+  simp only [clz] at hw ⊢
+  simp only [compressValue, h, if_false, hw]
+
+/-- window part of the encoder/decoder invariant -/
+def Win (c : Enc) (d : Dec) : Prop :=
+  c.lead = 255 ∨ (d.lead = c.lead ∧ d.trail = c.trail ∧ c.lead ≤ 31 ∧ c.lead + c.trail ≤ 63)
+
+theorem value_step (c : Enc) (d : Dec) (v : Nat) (r : Bits) (hv : v < P64)
+    (hval : d.value = c.value) (hcv : c.value < P64) (hwin : Win c d) :
+    ∃ d2, decompressValue d ((compressValue c v).2 ++ r) = some (d2, r) ∧
+      d2.t = d.t ∧ d2.delta = d.delta ∧ d2.value = v ∧ Win (compressValue c v).1 d2 ∧
+      (compressValue c v).1.value = v ∧ (compressValue c v).1.t = c.t ∧
+      (compressValue c v).1.tDelta = c.tDelta := by
+  by_cases h0 : c.value ^^^ v = 0
+  · rw [compressValue_zero c v h0]
+    refine ⟨d, decompressValue_zero d r, rfl, rfl, ?_, hwin, rfl, rfl, rfl⟩
+    rw [hval]; exact eq_of_xor_eq_zero _ _ h0
+  · have hx : c.value ^^^ v < P64 := Nat.xor_lt_two_pow (n := 64) hcv hv
+    have hlz := clz_le (c.value ^^^ v)
+    have hlt := lt_pow_clz _ hx
+    have hdvd := tz_dvd (c.value ^^^ v)
+    have hsum := clz_add_tz _ hx h0
+    generalize hX : c.value ^^^ v = x at *
+    have hxv : c.value ^^^ x = v := by rw [← hX, xor_cancel]
+    generalize hL : clz x = lz at *
+    generalize hT : trailingZeros x = tz at *
+    by_cases hw : c.lead ≤ lz ∧ c.trail ≤ tz
+    · have hwin' : d.lead = c.lead ∧ d.trail = c.trail ∧ c.lead ≤ 31 ∧ c.lead + c.trail ≤ 63 := by
+        rcases hwin with h | h
+        · omega
+        · exact h
+      obtain ⟨e1, e2, h31, h63⟩ := hwin'
+      rw [compressValue_reuse c v (by rw [hX]; exact h0) (by rw [hX, hL, hT]; exact hw), hX]
+      have hlt' : x < 2 ^ (64 - c.lead) :=
+        Nat.lt_of_lt_of_le hlt (Nat.pow_le_pow_right (by omega) (by omega))
+      have hdvd' : 2 ^ c.trail ∣ x := Nat.dvd_trans (Nat.pow_dvd_pow 2 hw.2) hdvd
+      have hsig : u8sub (u8sub 64 d.lead) d.trail = 64 - c.lead - c.trail := by
+        rw [e1, e2, u8sub_small 64 c.lead (by omega) (by omega), u8sub_small _ _ (by omega) (by omega)]
+      have hrd : readBits (u8sub (u8sub 64 d.lead) d.trail)
+          (writeBits (x >>> c.trail) (64 - c.lead - c.trail) ++ r) = some (x >>> c.trail, r) := by
+        rw [hsig]; exact readBits_writeBits_lt _ _ _ (window_lt x c.lead c.trail hlt' h63)
+      refine ⟨{ d with value := d.value ^^^ (if d.trail ≥ 64 then 0 else ((x >>> c.trail % P64) <<< d.trail) % P64) },
+        ?_, rfl, rfl, ?_, Or.inr ⟨e1, e2, h31, h63⟩, rfl, rfl, rfl⟩
+      · simp only [List.cons_append]
+        exact decompressValue_reuse d _ r _ hrd
+      · show d.value ^^^ (if d.trail ≥ 64 then 0 else ((x >>> c.trail % P64) <<< d.trail) % P64) = v
+        rw [if_neg (by omega), e2, window_back x c.trail hx hdvd', hval, hxv]
+    · rw [compressValue_new c v (by rw [hX]; exact h0) (by rw [hX, hL, hT]; exact hw), hX, hL, hT]
+      have hsig0 : (if (64 - lz - tz) % 2 ^ 6 = 0 then 64 else (64 - lz - tz) % 2 ^ 6) = 64 - lz - tz := by
+        split <;> omega
+      have htr : u8sub (u8sub 64 (64 - lz - tz)) lz = tz := by
+        rw [u8sub_small 64 _ (by omega) (by omega), u8sub_small _ _ (by omega) (by omega)]; omega
+      have hsig : u8sub (u8sub 64 lz) tz = 64 - lz - tz := by
+        rw [u8sub_small 64 lz (by omega) (by omega), u8sub_small _ _ (by omega) (by omega)]
+      have h5 : readBits 5 (writeBits lz 5 ++ (writeBits (64 - lz - tz) 6 ++
+            (writeBits (x >>> tz) (64 - lz - tz) ++ r))) = some (lz, _) :=
+        readBits_writeBits_lt _ _ _ (by omega)
+      have h6 : readBits 6 (writeBits (64 - lz - tz) 6 ++ (writeBits (x >>> tz) (64 - lz - tz) ++ r))
+            = some ((64 - lz - tz) % 2 ^ 6, _) :=
+        readBits_writeBits _ _ _
+      have hrd : readBits (u8sub (u8sub 64 lz) (u8sub (u8sub 64
+            (if (64 - lz - tz) % 2 ^ 6 = 0 then 64 else (64 - lz - tz) % 2 ^ 6)) lz))
+          (writeBits (x >>> tz) (64 - lz - tz) ++ r) = some (x >>> tz, r) := by
+        rw [hsig0, htr, hsig]; exact readBits_writeBits_lt _ _ _ (window_lt x lz tz hlt hsum)
+      have hdec := decompressValue_new d _ _ r lz _ _ h5 h6 hrd
+      simp only [hsig0, htr] at hdec
+      rw [if_neg (by omega), window_back x tz hx hdvd, hval, hxv] at hdec
+      refine ⟨{ d with lead := lz, trail := tz, value := v }, ?_, rfl, rfl, rfl,
+        Or.inr ⟨rfl, rfl, hlz, hsum⟩, rfl, rfl, rfl⟩
+      simpa only [List.cons_append, List.append_assoc] using hdec
+
 end SigModel.Lemmas.C08
